@@ -1713,6 +1713,10 @@ class Wtp:
                                     .strip()
                                 )
                                 self.expand_stack.pop()
+                                if is_positional_name(k):
+                                    # the name turned out to be a number
+                                    # only after it was expanded
+                                    k = int(k)
                         else:
                             k = num
                             num += 1
